@@ -195,10 +195,86 @@ def in_bounds(cases, los, his):
     return ''
 
 
+def fullfact_oracle(c, dvs, cases):
+    """exactly the product of the level lists (np.linspace is the reference for "evenly spaced levels");
+    returns (signature, message), ('', '') when fine"""
+    lists = []
+    for dv in dvs:
+        lo, hi = bounds(dv)
+        for k in range(len(lo)):
+            lists.append([float(v) for v in np.linspace(lo[k], hi[k], num=dv_levels(c, dv['name']))])
+    want = set(itertools.product(*lists))
+    got = [tuple(cs) for cs in cases]
+    nprod = 1
+    for lst in lists:
+        nprod *= len(lst)
+    if len(got) != nprod:
+        return 'fullfact-count', '%d cases for a product of %d level combinations' % (len(got), nprod)
+    if len(set(got)) != len(got) and len(want) == nprod:
+        return 'fullfact-duplicates', 'duplicate cases: %r' % (got[:6],)
+    if set(got) != want:
+        return 'fullfact-missing', 'cases differ from the product of the levels: %r' % (sorted(want - set(got))[:3],)
+    return '', ''
+
+
+def handle_reuse(c):
+    """ONE generator object called for a sequence of different design-variable sets: every call must yield what a
+    fresh generator yields for that call's design variables alone (bounds, factor count, full-factorial product)."""
+    gen = build_generator(c, False, None)
+    captured = {}
+    if c['gen'] in ('fullfact', 'gsd', 'pb', 'bb'):
+        orig = gen._generate_design
+
+        def wrapped(size):
+            d = orig(size)
+            captured['m'] = np.array(d).astype('int')
+            return d
+        gen._generate_design = wrapped
+    res, ok, sig, msg = [], True, '', ''
+    for si, dvs in enumerate(c['steps']):
+        names = [dv['name'] for dv in dvs]
+        dvd = dv_dict(dvs, False)
+        los, his = flat_bounds(dvs)
+        where = 'call %d of the same %s object (design variables %s)' % (
+            si + 1, c['gen'], ', '.join('%s[%d]' % (dv['name'], len(dv['lo'])) for dv in dvs))
+        captured.pop('m', None)
+        try:
+            cases = [flat_case(cs, False, names) for cs in gen(dvd)]
+        except Exception as e:   # noqa
+            ok, sig, msg = False, 'reuse-raised:' + c['gen'], '%s raised %s: %s' % (where, type(e).__name__, str(e)[:150])
+            break
+        if 'm' in captured:
+            res.append([[[int(v) for v in row] for row in captured['m']], [[q(v) for v in cs] for cs in cases]])
+        m = in_bounds(cases, los, his)
+        if m:
+            ok, sig, msg = False, 'reuse-out-of-bounds:' + c['gen'], where + ': ' + m
+            break
+        if c['gen'] == 'fullfact':
+            sg, m = fullfact_oracle(c, dvs, cases)
+            if sg:
+                ok, sig, msg = False, 'reuse-' + sg, where + ': ' + m
+                break
+        if c['gen'] in ('fullfact', 'gsd', 'pb', 'bb') or c.get('seed') is not None:
+            fresh = [flat_case(cs, False, names) for cs in build_generator(c, False, None)(dvd)]
+            if fresh != cases:
+                ok, sig = False, 'reuse-differs-from-fresh:' + c['gen']
+                msg = '%s yields %d cases %r..., a fresh generator with the same options yields %d cases %r...' % (
+                    where, len(cases), cases[:2], len(fresh), fresh[:2])
+                break
+        elif c['gen'] in ('lhs', 'uniform') and len(cases) != c['samples']:
+            ok, sig, msg = False, 'reuse-count:' + c['gen'], '%s: %d cases for %d samples' % (where, len(cases), c['samples'])
+            break
+    if not ok or c['gen'] in ('lhs', 'uniform'):
+        res = '__none__'
+    return {'res': res, 'ok': ok, 'msg': msg, 'sig': sig, 'kind': 'reuse:%s' % c['gen']}
+
+
 def handle(c):
     kind = c['kind']
     if kind == 'driver':
         return handle_driver(c)
+    if kind == 'reuse':
+        return handle_reuse(c)
     los, his = flat_bounds(c['dvs'])
     ok, msg, sig = True, '', ''
     if kind == 'levels':
@@ -208,24 +284,8 @@ def handle(c):
         if msg:
             ok, sig = False, 'out-of-bounds:' + c['gen']
         elif c['gen'] == 'fullfact':
-            # exactly the product of the level lists (np.linspace is the reference for "evenly spaced levels")
-            lists = []
-            for dv in c['dvs']:
-                lo, hi = bounds(dv)
-                for k in range(len(lo)):
-                    lists.append([float(v) for v in np.linspace(lo[k], hi[k], num=dv_levels(c, dv['name']))])
-            want = set(itertools.product(*lists))
-            got = [tuple(cs) for cs in cases]
-            nprod = 1
-            for lst in lists:
-                nprod *= len(lst)
-            if len(got) != nprod:
-                ok, sig, msg = False, 'fullfact-count', '%d cases for a product of %d level combinations' % (len(got), nprod)
-            elif len(set(got)) != len(got) and len(want) == nprod:
-                ok, sig, msg = False, 'fullfact-duplicates', 'duplicate cases: %r' % (got[:6],)
-            elif set(got) != want:
-                ok, sig, msg = False, 'fullfact-missing', 'cases differ from the product of the levels: %r' % (
-                    sorted(want - set(got))[:3],)
+            sig, msg = fullfact_oracle(c, c['dvs'], cases)
+            ok = not sig
     elif kind == 'lhs':
         cases, m = run_generator(c, 'lhs')
         n = len(cases)
@@ -303,24 +363,8 @@ class Recorder(om.ExplicitComponent):
 
 
 def handle_driver(c):
-    from openmdao.utils.units import convert_units
-    p = om.Problem(reports=None)
-    rec = p.model.add_subsystem('c', Recorder(spec=c['vars']), promotes=['*'])
-    for v in c['vars']:
-        kw = {}
-        lo = [float(fr(x)) for x in v['lo']]
-        hi = [float(fr(x)) for x in v['hi']]
-        kw['lower'] = lo[0] if v.get('scalar_bounds') else np.array(lo)
-        kw['upper'] = hi[0] if v.get('scalar_bounds') else np.array(hi)
-        if v.get('indices') is not None:
-            kw['indices'] = v['indices']
-        if v.get('dv_units'):
-            kw['units'] = v['dv_units']
-        for k in ('scaler', 'adder', 'ref', 'ref0'):
-            if v.get(k) is not None:
-                kw[k] = float(fr(v[k]))
-        p.model.add_design_var(v['name'], **kw)
-    p.model.add_objective('f')
+    """DOEDriver on a recording model; with c['more_vars'] the SAME generator object then drives further Problems
+    with other design-variable sets (each must be evaluated at what a fresh generator yields for it)"""
     g = c['gen']
 
     def mk():
@@ -337,7 +381,44 @@ def handle_driver(c):
         if g == 'list':
             return [[(n, np.array([float(fr(x)) for x in val])) for n, val in cs] for cs in c['cases']]
         raise ValueError(g)
-    p.driver = om.DOEDriver(mk())
+    shared = mk()
+    ok, msg, sig = True, '', ''
+    for pi, vs in enumerate([c['vars']] + list(c.get('more_vars', []))):
+        try:
+            ok, sig, msg = drive_problem(c, vs, shared, mk)
+        except Exception as e:   # noqa
+            if pi == 0:
+                raise
+            ok, sig, msg = False, 'reuse-raised:driver:' + g, '%s: %s' % (type(e).__name__, str(e)[:150])
+        if not ok:
+            if pi:
+                sig = 'reuse-' + sig if not sig.startswith('reuse-') else sig
+                msg = 'problem %d driven by the same %s generator object: %s' % (pi + 1, g, msg)
+            break
+    return {'res': '__none__', 'ok': ok, 'msg': msg, 'sig': sig, 'kind': 'driver:%s%s' % (g, '+reuse' if c.get('more_vars') else '')}
+
+
+def drive_problem(c, cvars, genobj, mk):
+    from openmdao.utils.units import convert_units
+    g = c['gen']
+    p = om.Problem(reports=None)
+    rec = p.model.add_subsystem('c', Recorder(spec=cvars), promotes=['*'])
+    for v in cvars:
+        kw = {}
+        lo = [float(fr(x)) for x in v['lo']]
+        hi = [float(fr(x)) for x in v['hi']]
+        kw['lower'] = lo[0] if v.get('scalar_bounds') else np.array(lo)
+        kw['upper'] = hi[0] if v.get('scalar_bounds') else np.array(hi)
+        if v.get('indices') is not None:
+            kw['indices'] = v['indices']
+        if v.get('dv_units'):
+            kw['units'] = v['dv_units']
+        for k in ('scaler', 'adder', 'ref', 'ref0'):
+            if v.get(k) is not None:
+                kw[k] = float(fr(v[k]))
+        p.model.add_design_var(v['name'], **kw)
+    p.model.add_objective('f')
+    p.driver = om.DOEDriver(genobj)
     p.setup()
     p.final_setup()
     rec.seen.clear()
@@ -361,7 +442,7 @@ def handle_driver(c):
             seen[:1], seen_again[:1])
     elif len(seen) != len(cases):
         ok, sig, msg = False, 'driver-count', 'the model was evaluated %d times for %d generated cases' % (len(seen), len(cases))
-    spec = {v['name']: v for v in c['vars']}
+    spec = {v['name']: v for v in cvars}
     for i, (cs, sn) in enumerate(zip(cases, seen)):
         if not ok:
             break
@@ -387,7 +468,7 @@ def handle_driver(c):
                 msg = 'case %d: generated %s = %r (indices %r, units %r) but the model was evaluated at %r' % (
                     i, n, [float(x) for x in val], idx, v.get('dv_units'), sn[n])
                 break
-    return {'res': '__none__', 'ok': ok, 'msg': msg, 'sig': sig, 'kind': 'driver:%s' % g}
+    return ok, sig, msg
 
 
 if __name__ == '__main__':
